@@ -15,6 +15,7 @@ import (
 	"encoding/hex"
 	"encoding/json"
 	"fmt"
+	"os"
 	"sort"
 	"strings"
 	"time"
@@ -24,6 +25,7 @@ import (
 	banktypes "github.com/cosmos/cosmos-sdk/x/bank/types"
 
 	coinswaptypes "mods.irisnet.org/modules/coinswap/types"
+	farmkeeper "mods.irisnet.org/modules/farm/keeper"
 	farmtypes "mods.irisnet.org/modules/farm/types"
 	htlctypes "mods.irisnet.org/modules/htlc/types"
 	mttypes "mods.irisnet.org/modules/mt/types"
@@ -355,7 +357,7 @@ func clean(s string) string {
 	return s
 }
 
-func experiment(seed uint64, blocks int, out *hx.Out) string {
+func experiment(seed uint64, blocks int, zero bool, out *hx.Out) string {
 	plan := genPlan(seed, blocks)
 	x, rx, codes, err := runPlan(plan, -1)
 	for k, v := range codes {
@@ -386,15 +388,37 @@ func experiment(seed uint64, blocks int, out *hx.Out) string {
 	if firstDiff >= 0 {
 		res += fmt.Sprintf(" first_diff_block=%d", firstDiff)
 	}
+	// the modules' own registered invariants must hold on the chain that produced the export
+	if msg, broken := farmkeeper.RewardInvariant(x.Env.Farm)(x.QueryCtx()); broken {
+		res += " invariant_before_export=broken:" + clean(msg)
+	}
 	// export -> InitChain -> one identical empty block on both -> compare irismod sections
-	exp, err := x.Export(false)
+	exp, err := x.Export(zero)
+	if os.Getenv("VERIF_DEBUG_EXPORT") != "" {
+		secs, _ := irisSections(exp)
+		fmt.Fprintf(os.Stderr, "FARM EXPORT: %s\n", secs["farm"])
+	}
 	if err != nil {
 		return res + " export=" + clean(err.Error())
 	}
 	funds := sdk.NewCoins()
-	z, err := hx.NewChainAt(nAcc, funds, x.Time, exp, x.Height+1)
+	initial := x.Height + 1
+	if zero {
+		initial = 1 // a zero-height export restarts the chain from the beginning
+	}
+	z, err := hx.NewChainAt(nAcc, funds, x.Time, exp, initial)
 	if err != nil {
 		return res + " export=ok import=" + clean(err.Error())
+	}
+	if zero {
+		// heights restart, so the two chains are not comparable block by block: the re-imported
+		// chain must simply keep running for a while
+		for i := 0; i < 40; i++ {
+			if _, err := z.Block(nil, 5*time.Second); err != nil {
+				return res + " export=ok import=ok reimported_halted=true where=" + clean(err.Error())
+			}
+		}
+		return res + " export=ok import=ok reimported_halted=false"
 	}
 	if _, err := x.Block(nil, 5*time.Second); err != nil {
 		return res + " halted_after_export=true where=" + clean(err.Error())
@@ -435,7 +459,7 @@ func main() {
 		var blocks int
 		fmt.Sscan(a["seed"], &seed)
 		fmt.Sscan(a["blocks"], &blocks)
-		return experiment(seed, blocks, out)
+		return experiment(seed, blocks, a["zero"] == "1", out)
 	}
 	if o.Replay != "" {
 		for _, l := range hx.ReadLines(o.Replay) {
@@ -445,7 +469,7 @@ func main() {
 	}
 	g := hx.NewRng(o.Seed)
 	for i := 0; i < o.N; i++ {
-		l := fmt.Sprintf("chain hist seed=%d blocks=%d", g.U64()%10000000, 10+g.Intn(o.Len))
+		l := fmt.Sprintf("chain hist seed=%d blocks=%d zero=%d", g.U64()%10000000, 10+g.Intn(o.Len), g.Intn(2))
 		out.Op(l, run(l))
 		out.Count("experiments")
 	}
